@@ -199,6 +199,14 @@ def primitives(interp):
     def from_be(interp, b):
         rope = ops.norm(b.rope)
         if any(isinstance(e, Blk) for e in rope):
+            # a block whose length is a constant under the path condition (e.g. a slice [n-8:n-4]) is a run of elements
+            for e in list(rope):
+                if isinstance(e, Blk):
+                    vals = interp.ctx.enumerate_values(ops.elem_term(e.n), 1)
+                    if vals is not None and len(vals) == 1 and 0 <= vals[0] <= 16:
+                        ops.refine_to_elements(interp.ctx, e, vals[0])
+            rope = ops.norm(b.rope)
+        if any(isinstance(e, Blk) for e in rope):
             raise Unsupported("from_be of octets of symbolic length")
         if not rope:
             return 0
